@@ -5,6 +5,7 @@ pub mod artifacts;
 pub mod dbg;
 pub mod ll;
 pub mod lr;
+pub mod lsprops;
 pub mod nopanic;
 pub mod robust;
 pub mod scanner;
@@ -19,9 +20,10 @@ pub fn run(id: &str, tier: Tier, replay: Option<&str>) -> i32 {
         "C19" | "C20" => robust::run(id, tier, replay),
         "C13" | "C14" | "C15" | "C16" | "C17" => scanner::run(id, tier, replay),
         "C31" | "C32" => small::run(id, tier, replay),
-        "C18" | "C21" | "C25" => artifacts::run(id, tier, replay),
+        "C18" | "C21" | "C25" | "C33" => artifacts::run(id, tier, replay),
         "C26" => nopanic::run(tier, replay),
         "C26-deep" => nopanic::deep_worker(&std::env::args().skip(2).collect::<Vec<_>>()),
+        "C27" | "C28" | "C30" | "C34" => lsprops::run(id, tier, replay),
         "C05" | "C06" | "C07" | "C08" => analysis::run(id, tier, replay),
         "dbg" => dbg::run(&std::env::args().skip(2).collect::<Vec<_>>()),
         "count" => {
